@@ -45,6 +45,13 @@ func init() {
 				PropList: o.attr("list", "C16"), Names: o.Names, Depth: o.Depth}
 			return &fsad.SubAdapter{Cfg: sc}
 		}
+		if strings.HasPrefix(kind, "kvfault=") {
+			// kvfault=plain|txn: keyvalue.FS over a store in which every store call is failed once (C14)
+			kc := fsad.KVFaultConfig{PropFault: o.attr("fault", "C14"), Store: strings.TrimPrefix(kind, "kvfault=")}
+			kc.Config = fsad.Config{AdapterName: kind, PropState: o.attr("state", "-"), PropErr: o.attr("err", "-"), PropErrPath: "-",
+				PropWF: o.attr("wf", "-"), PropList: o.attr("list", "-"), Names: o.Names, Depth: o.Depth}
+			return &fsad.KVFaultAdapter{Cfg: kc}
+		}
 		if strings.HasPrefix(kind, "mask=") || strings.HasPrefix(kind, "fault=") {
 			// mask=<group:members>=<base>: package helpers on a capability-masked FS (C08); fault= adds fault enumeration
 			parts := strings.Split(kind, "=")
